@@ -174,6 +174,7 @@ type Exec struct {
 	probes   []probe
 	pruned   int
 	curLoopPos token.Pos
+	paramAlias [][2]string // contract name -> code name of renamed parameters
 }
 
 type loopInfo struct {
@@ -831,6 +832,11 @@ func (x *Exec) invEnv(st *State) *Env {
 	for n, al := range best {
 		vars[n] = Val{S: fr.cells[al], T: al.Type().(*types.Pointer).Elem()}
 	}
+	for _, pa := range x.paramAlias {
+		if v, ok := vars[pa[1]]; ok {
+			vars[pa[0]] = v
+		}
+	}
 	// heap-allocated named locals (escaping variables)
 	for v, r := range fr.regs {
 		if al, ok := v.(*ssa.Alloc); ok && al.Heap && isIdent(al.Comment) && r.A == nil {
@@ -1474,7 +1480,7 @@ func (x *Exec) makeClosure(st *State, ins *ssa.MakeClosure) {
 		x.assume(st, fmt.Sprintf("(= (%s_b%d %s) %s)", name, i, v.S, a))
 	}
 	cx.declUF("fnid", "(declare-fun fnid (Fn) Int)")
-	x.assume(st, fmt.Sprintf("(= (fnid %s) %d)", v.S, 100000+cx.tagOf(types.NewTuple(types.NewVar(0, nil, name, types.Typ[types.Int])))))
+	x.assume(st, fmt.Sprintf("(= (fnid %s) %d)", v.S, cx.closureID(fnKey(x.w.pkgOfFn(f), f))))
 	fr.regs[ins] = v
 }
 
